@@ -692,7 +692,14 @@ func (c *Client) Do(ctx context.Context, q Query) (err error) {
 		result := proto.ColInfoInput{}
 		q.Result = &result
 		colInfo = make(chan proto.ColInfoInput, 1)
+		gotInfo := false
 		q.OnResult = func(ctx context.Context, block proto.Block) error {
+			if gotInfo {
+				// Nobody waits for a second one: sending it would block
+				// the receive loop forever.
+				return errors.New("unexpected data block: column info already received")
+			}
+			gotInfo = true
 			if ce := c.lg.Check(zap.DebugLevel, "Received column info"); ce != nil {
 				info := make(map[string]proto.ColumnType, len(result))
 				for _, v := range result {
@@ -703,7 +710,8 @@ func (c *Client) Do(ctx context.Context, q Query) (err error) {
 			select {
 			case <-ctx.Done():
 				return ctx.Err()
-			case colInfo <- result:
+			case colInfo <- append(proto.ColInfoInput(nil), result...):
+				// A copy: result is decoded into again if another block comes.
 				return nil
 			}
 		}
